@@ -122,6 +122,7 @@ class DocGen:
         self.n = 0
         self.mn = 0
         self.inside = []           # words that must be rendered inside a box (first paragraph of a top-level box)
+        self.after = []            # words that must be rendered outside every box (paragraph after an end marker)
         return self.eid
 
     def w(self, k=None):
@@ -187,8 +188,12 @@ class DocGen:
                 lines.append("")
             prev_open = False
             if k < 0.65:
+                first = len(lines)
                 lines += [self.w() for _ in range(rng.randint(1, 3))]
                 kinds.append("para")
+                if kinds[-2:-1] and kinds[-2] in ("box:end", "box:endpre", "box:endpost"):
+                    # a paragraph right after a box closed by its end marker stays outside the box
+                    self.after += self.words_of(lines[first:])
             elif k < 0.75:
                 mark = rng.choice(["- ", "* ", "+ "])
                 lines += [""] + [mark + self.w() for _ in range(rng.randint(1, 3))]
@@ -252,10 +257,9 @@ class DocGen:
         hdr, meta, blank = self.meta_header(leaf)
         body, kinds = self.body()
         if self.knobs.get("pretext") and rng.random() < 0.5:
-            # recorded defect: text before the start marker on the same line
+            # text before the start marker on the same line (repaired defect doc-text-before-note-dropped)
             body = [self.w(2) + " @note " + self.w(1)] + body
             kinds = ["pretext"] + kinds
-            region = "doc-text-before-note-dropped"
         if hdr:
             # the body must not start with something that continues the header
             while body and (body[0] == "" or body[0].startswith("    ")):
@@ -271,7 +275,7 @@ class DocGen:
                 body = [self.w()]
             lines = body
         return dict(eid=eid, lines=lines, words=self.words_of(body), meta=meta, kinds=kinds, region=region,
-                    inside=list(self.inside))
+                    inside=list(self.inside), after=list(self.after))
 
     @staticmethod
     def words_of(lines):
